@@ -6,6 +6,7 @@
 #include "ola/Logging.h"
 #include "ola/web/Json.h"
 #include "ola/web/JsonData.h"
+#include "ola/web/JsonLexer.h"
 #include "ola/web/JsonParser.h"
 #include "ola/web/JsonPatch.h"
 #include "ola/web/JsonPointer.h"
@@ -122,6 +123,27 @@ static string parse_result(const string &text, bool print_tree) {
   return out + ";rt=" + (rt ? "1" : "0");
 }
 
+// a document of exactly n bytes: s = one string, a = the writer's form of an array of integers,
+// w = "[1" + blanks + "]"
+static string sized_doc(const string &kind, size_t n) {
+  if (kind == "s") return n < 2 ? string(n, '"') : "\"" + string(n - 2, 'a') + "\"";
+  if (kind == "w") return n < 3 ? string(n, '[') : "[1" + string(n - 3, ' ') + "]";
+  if (n < 3) return string(n, '[');
+  size_t k = (n - 3) / 3, rem = (n - 3) % 3;
+  string t = "[";
+  for (size_t i = 0; i < k; i++) t += "7, ";
+  return t + string(1 + rem, '7') + "]";
+}
+
+// what JsonParser::Parse does, on a given (possibly long-lived) parser object
+static string parse_with(JsonParser *parser, const string &text) {
+  if (JsonLexer::Parse(text, parser)) {
+    std::auto_ptr<JsonValue> v(parser->ClaimRoot());
+    return "ok:" + show(v.get());
+  }
+  return "err:" + H(parser->GetError());
+}
+
 static JsonPatchOp *mk_op(const string &s) {
   vector<string> f = vh::split(s, ':');
   const string &k = f[0];
@@ -141,7 +163,7 @@ static const unsigned kParseWatchdogSeconds = 4;
 static string handle(const string &p) {
   vector<string> a = vh::split(p);
   const string &op = a[0];
-  if (op == "parse" || op == "deep" || op == "tree") alarm(kParseWatchdogSeconds);
+  if (op == "parse" || op == "deep" || op == "tree" || op == "len" || op == "seq") alarm(kParseWatchdogSeconds);
   if (op == "ptr") {                      // pointer from its string form
     JsonPointer ptr(S(a[1]));
     if (!ptr.IsValid()) return "valid=0";
@@ -178,6 +200,22 @@ static string handle(const string &p) {
       if (close) for (unsigned i = n; i > 0; i--) t += ((i - 1) & 1) ? "}" : "]";
     }
     return parse_result(t, false);
+  }
+  if (op == "len") return parse_result(sized_doc(a[1], vh::num(a[2])), false);
+  if (op == "seq") {                       // ONE JsonParser object for a whole sequence of texts
+    vector<string> texts = vh::split(a[1], ',');
+    JsonParser reused;
+    std::ostringstream o;
+    bool same = true;
+    for (size_t i = 0; i < texts.size(); i++) {
+      string t = S(texts[i]);
+      string r = parse_with(&reused, t);
+      JsonParser fresh;
+      same = same && (r == parse_with(&fresh, t));
+      o << "p" << i << "=" << r << ";";
+    }
+    o << "fresh=" << (same ? "1" : "0");
+    return o.str();
   }
   if (op == "tree") {                      // API-built value: write, parse back, compare
     std::auto_ptr<JsonValue> v(build_s(a[1]));
